@@ -40,7 +40,40 @@ def run(rep, tier):
               ok="built only from fresh/immutable values (tier.entries is a tuple copy)",
               bad="returned dictionary reaches objects owned by the textgrid (%s); _prepTgForSaving/_fillInBlanks write into it" % sorted(roots))
 
-    common.rule_atomic(rep, MUTATORS)
+    # failure injection by interpretation: the tables of C11 / C12 record a row as refuted when a raising call
+    # (collision under the raising reporter, duplicate or absent name, widening under 'error', invalid option,
+    # absent entry) leaves the receiver changed
+    from . import c11, c12
+    from .. import specs
+    from ..absint import Tup
+    from .tierops import tier_table
+
+    rep.rule("B1-tables", "failure injection by abstract interpretation: in every abstract state and mode in which insertEntry / deleteEntry / addTier / renameTier / replaceTier raise (collision under the raising reporter, duplicate or absent name, widening under 'error', invalid option, absent entry) the receiver is exactly as before")
+    for k in ([0, 1] if tier == "quick" else [0, 1, 2]):
+        tier_table(rep, "B1-tables", "insertEntry", "interval", k, c11.new_interval, c11.MODES,
+                   lambda I, t, sy, mode: I.call_value(I.getattr(t, "insertEntry"), [Tup(list(sy["new"]), "Interval"), mode[0], mode[1]], {}),
+                   lambda O, ents, m, M, sy, mode: specs.insert_entry_interval(O, ents, m, M, sy["new"], mode[0], mode[1]),
+                   "%d generic entries x new interval" % k, span_atoms=True)
+        tier_table(rep, "B1-tables", "insertEntry", "point", k, c11.new_point, c11.MODES,
+                   lambda I, t, sy, mode: I.call_value(I.getattr(t, "insertEntry"), [Tup(list(sy["new"]), "Point"), mode[0], mode[1]], {}),
+                   lambda O, ents, m, M, sy, mode: specs.insert_entry_point(O, ents, m, M, sy["new"], mode[0], mode[1]),
+                   "%d generic points x new point" % k, strict_ties=True)
+    for kind in ("interval", "point"):
+        def call(I, t, sy, mode, kind=kind):
+            if mode == "absent":
+                x = Tup(list(sy["new"]), "Interval" if kind == "interval" else "Point")
+            else:
+                x = I.iterate(I.getattr(t, "entries"))[mode]
+            return I.call_value(I.getattr(t, "deleteEntry"), [x], {})
+
+        def spec(O, ents, m, M, sy, mode, kind=kind):
+            if mode == "absent":
+                O.raise_("ANY-EXC")
+            return {"class": "IntervalTier" if kind == "interval" else "PointTier", "entries": [e for i, e in enumerate(ents) if i != mode], "min": m, "max": M}
+        tier_table(rep, "B1-tables", "deleteEntry", kind, 1, c11.new_interval if kind == "interval" else c11.new_point, [0, "absent"], call, spec, "1 generic entry", as_atoms=True)
+    c12.add_tier_table(rep, tier)
+    c12.rename_replace_table(rep)
+    common.rule_atomic(rep, MUTATORS, semantic=True)
     rep.floor("B1-atomic", 8, "8 mutators")
     common.rule_save_order(rep, ["Textgrid.save"])
     rep.floor("B2-save-order", 2)
